@@ -17,6 +17,17 @@ theorem select_other_row (q : Select) (ps : Env) (r : SRow) (c : Col) (g : Strin
     have := pins_sound ps r q.cond c g hp h
     simp [hne] at this
 
+/-- Over the whole table: a read that pins a column returns no row with another value in it. -/
+theorem read_table_only (q : Select) (ps : Env) (t : List SRow) (c : Col) (g : String) (hp : q.cond.pins c g = true) :
+    ∀ r ∈ q.readTable ps t, (r.get c).same (ps g) = true := by
+  intro r hr
+  simp only [Select.readTable, List.mem_filter] at hr
+  cases h : (r.get c).same (ps g) with
+  | true => rfl
+  | false =>
+    have := select_other_row q ps r c g hp h
+    simp [this] at hr
+
 /-- Every read of one key (before a write, or on its own) pins both `collection` and `key`. -/
 theorem point_reads_pin_collection_and_key :
     ∀ q ∈ [Collection_DeleteSubDocPaths_WHERE_0, Collection_DeleteWithXattrs_WHERE_0, Collection_GetExpiry_WHERE_0,
